@@ -308,7 +308,7 @@ pub fn inputs_c08(r: &mut Rng, n: usize, tier: &str, out: &mut dyn Write) {
                 writeln!(out, "greg {} {} {} {} {} {} {} {}", y, m, d, h, mi, s, ns, ts2s(scale(r))).unwrap()
             }
             21 => {
-                let op = *r.pick(&["maybe_tai", "maybe_utc"]);
+                let op = *r.pick(&["greg_maybe_tai", "greg_maybe_utc"]);
                 let f = if r.chance(1, 4) { reject_fields(r) } else if r.chance(1, 4) { leap_second_fields(r) } else { valid_fields(r) };
                 writeln!(out, "{} {}", op, f7(f)).unwrap()
             }
@@ -316,26 +316,26 @@ pub fn inputs_c08(r: &mut Rng, n: usize, tier: &str, out: &mut dyn Write) {
                 // the panicking constructors: mostly valid input, some invalid (documented: panic)
                 let f = if r.chance(1, 8) { reject_fields(r) } else if r.chance(1, 8) { leap_second_fields(r) } else { valid_fields(r) };
                 match r.below(3) {
-                    0 => writeln!(out, "from_greg {} {}", f7(f), ts2s(scale(r))).unwrap(),
-                    1 => writeln!(out, "from_greg_tai {}", f7(f)).unwrap(),
-                    _ => writeln!(out, "from_greg_utc {}", f7(f)).unwrap(),
+                    0 => writeln!(out, "greg_from {} {}", f7(f), ts2s(scale(r))).unwrap(),
+                    1 => writeln!(out, "greg_from_tai {}", f7(f)).unwrap(),
+                    _ => writeln!(out, "greg_from_utc {}", f7(f)).unwrap(),
                 }
             }
             24 | 25 => {
                 let f = if r.chance(1, 8) { reject_fields(r) } else if r.chance(1, 6) { february_fields(r) } else { valid_fields(r) };
-                let op = *r.pick(&["at_midnight", "at_noon"]);
+                let op = *r.pick(&["midnight", "noon"]);
                 match r.below(3) {
-                    0 => writeln!(out, "{} {} {} {} {}", op, f.0, f.1, f.2, ts2s(scale(r))).unwrap(),
-                    1 => writeln!(out, "tai_{} {} {} {}", op, f.0, f.1, f.2).unwrap(),
-                    _ => writeln!(out, "utc_{} {} {} {}", op, f.0, f.1, f.2).unwrap(),
+                    0 => writeln!(out, "greg_{} {} {} {} {}", op, f.0, f.1, f.2, ts2s(scale(r))).unwrap(),
+                    1 => writeln!(out, "greg_tai_{} {} {} {}", op, f.0, f.1, f.2).unwrap(),
+                    _ => writeln!(out, "greg_utc_{} {} {} {}", op, f.0, f.1, f.2).unwrap(),
                 }
             }
             26 | 27 => {
                 let f = if r.chance(1, 8) { reject_fields(r) } else if r.chance(1, 6) { leap_second_fields(r) } else { valid_fields(r) };
                 match r.below(3) {
-                    0 => writeln!(out, "hms {} {} {} {} {} {} {}", f.0, f.1, f.2, f.3, f.4, f.5, ts2s(scale(r))).unwrap(),
-                    1 => writeln!(out, "tai_hms {} {} {} {} {} {}", f.0, f.1, f.2, f.3, f.4, f.5).unwrap(),
-                    _ => writeln!(out, "utc_hms {} {} {} {} {} {}", f.0, f.1, f.2, f.3, f.4, f.5).unwrap(),
+                    0 => writeln!(out, "greg_hms {} {} {} {} {} {} {}", f.0, f.1, f.2, f.3, f.4, f.5, ts2s(scale(r))).unwrap(),
+                    1 => writeln!(out, "greg_tai_hms {} {} {} {} {} {}", f.0, f.1, f.2, f.3, f.4, f.5).unwrap(),
+                    _ => writeln!(out, "greg_utc_hms {} {} {} {} {} {}", f.0, f.1, f.2, f.3, f.4, f.5).unwrap(),
                 }
             }
             _ => {
@@ -437,9 +437,9 @@ pub fn inputs_c09(r: &mut Rng, n: usize, tier: &str, out: &mut dyn Write) {
             10 | 11 => writeln!(out, "to_greg_str {}", epoch_c09(r, ts)).unwrap(),
             12 | 13 => writeln!(out, "to_greg_tai {}", epoch_c09(r, TimeScale::TAI)).unwrap(),
             14 | 15 => writeln!(out, "to_greg_utc {}", epoch_c09(r, TimeScale::UTC)).unwrap(),
-            16 => writeln!(out, "rt_tai {}", epoch_c09(r, TimeScale::TAI)).unwrap(),
-            17 => writeln!(out, "rt_utc {}", epoch_c09(r, TimeScale::UTC)).unwrap(),
-            18 => writeln!(out, "debug {}", epoch_c09(r, TimeScale::UTC)).unwrap(),
+            16 => writeln!(out, "greg_rt_tai {}", epoch_c09(r, TimeScale::TAI)).unwrap(),
+            17 => writeln!(out, "greg_rt_utc {}", epoch_c09(r, TimeScale::UTC)).unwrap(),
+            18 => writeln!(out, "fmt_debug {}", epoch_c09(r, TimeScale::UTC)).unwrap(),
             19 => match r.below(4) {
                 0 => writeln!(out, "fmt_x {}", epoch_c09(r, TimeScale::TAI)).unwrap(),
                 1 => writeln!(out, "fmt_X {}", epoch_c09(r, TimeScale::TT)).unwrap(),
@@ -449,9 +449,9 @@ pub fn inputs_c09(r: &mut Rng, n: usize, tier: &str, out: &mut dyn Write) {
             20 | 21 => writeln!(out, "year {}", epoch_c09(r, ts)).unwrap(),
             22 | 23 => writeln!(out, "month_name {}", epoch_c09(r, ts)).unwrap(),
             24 | 25 => writeln!(out, "dur_in_year {}", epoch_c09(r, ts)).unwrap(),
-            26 => writeln!(out, "day_of_year {}", epoch_c09(r, ts)).unwrap(),
-            27 => writeln!(out, "year_doy {}", epoch_c09(r, ts)).unwrap(),
-            28 => writeln!(out, "rt {}", epoch_c09(r, ts)).unwrap(),
+            26 => writeln!(out, "doy {}", epoch_c09(r, ts)).unwrap(),
+            27 => writeln!(out, "ydoy {}", epoch_c09(r, ts)).unwrap(),
+            28 => writeln!(out, "greg_rt {}", epoch_c09(r, ts)).unwrap(),
             _ => {
                 let y = pick_year(r);
                 let m = 1 + r.below(12) as i64;
@@ -501,32 +501,32 @@ pub fn exec(op: &str, a: &[&str]) -> Option<String> {
                 i32a(a[0]), u8a(a[1]), u8a(a[2]), u8a(a[3]), u8a(a[4]), u8a(a[5]), u32a(a[6])
             ))
         )),
-        "maybe_tai" => Some(res_e(Epoch::maybe_from_gregorian_tai(
+        "greg_maybe_tai" => Some(res_e(Epoch::maybe_from_gregorian_tai(
             i32a(a[0]), u8a(a[1]), u8a(a[2]), u8a(a[3]), u8a(a[4]), u8a(a[5]), u32a(a[6]),
         ))),
-        "maybe_utc" => Some(res_e(Epoch::maybe_from_gregorian_utc(
+        "greg_maybe_utc" => Some(res_e(Epoch::maybe_from_gregorian_utc(
             i32a(a[0]), u8a(a[1]), u8a(a[2]), u8a(a[3]), u8a(a[4]), u8a(a[5]), u32a(a[6]),
         ))),
-        "from_greg" => oke(Epoch::from_gregorian(
+        "greg_from" => oke(Epoch::from_gregorian(
             i32a(a[0]), u8a(a[1]), u8a(a[2]), u8a(a[3]), u8a(a[4]), u8a(a[5]), u32a(a[6]), s2ts(a[7]),
         )),
-        "from_greg_tai" => oke(Epoch::from_gregorian_tai(
+        "greg_from_tai" => oke(Epoch::from_gregorian_tai(
             i32a(a[0]), u8a(a[1]), u8a(a[2]), u8a(a[3]), u8a(a[4]), u8a(a[5]), u32a(a[6]),
         )),
-        "from_greg_utc" => oke(Epoch::from_gregorian_utc(
+        "greg_from_utc" => oke(Epoch::from_gregorian_utc(
             i32a(a[0]), u8a(a[1]), u8a(a[2]), u8a(a[3]), u8a(a[4]), u8a(a[5]), u32a(a[6]),
         )),
-        "at_midnight" => oke(Epoch::from_gregorian_at_midnight(i32a(a[0]), u8a(a[1]), u8a(a[2]), s2ts(a[3]))),
-        "at_noon" => oke(Epoch::from_gregorian_at_noon(i32a(a[0]), u8a(a[1]), u8a(a[2]), s2ts(a[3]))),
-        "tai_at_midnight" => oke(Epoch::from_gregorian_tai_at_midnight(i32a(a[0]), u8a(a[1]), u8a(a[2]))),
-        "tai_at_noon" => oke(Epoch::from_gregorian_tai_at_noon(i32a(a[0]), u8a(a[1]), u8a(a[2]))),
-        "utc_at_midnight" => oke(Epoch::from_gregorian_utc_at_midnight(i32a(a[0]), u8a(a[1]), u8a(a[2]))),
-        "utc_at_noon" => oke(Epoch::from_gregorian_utc_at_noon(i32a(a[0]), u8a(a[1]), u8a(a[2]))),
-        "hms" => oke(Epoch::from_gregorian_hms(
+        "greg_midnight" => oke(Epoch::from_gregorian_at_midnight(i32a(a[0]), u8a(a[1]), u8a(a[2]), s2ts(a[3]))),
+        "greg_noon" => oke(Epoch::from_gregorian_at_noon(i32a(a[0]), u8a(a[1]), u8a(a[2]), s2ts(a[3]))),
+        "greg_tai_midnight" => oke(Epoch::from_gregorian_tai_at_midnight(i32a(a[0]), u8a(a[1]), u8a(a[2]))),
+        "greg_tai_noon" => oke(Epoch::from_gregorian_tai_at_noon(i32a(a[0]), u8a(a[1]), u8a(a[2]))),
+        "greg_utc_midnight" => oke(Epoch::from_gregorian_utc_at_midnight(i32a(a[0]), u8a(a[1]), u8a(a[2]))),
+        "greg_utc_noon" => oke(Epoch::from_gregorian_utc_at_noon(i32a(a[0]), u8a(a[1]), u8a(a[2]))),
+        "greg_hms" => oke(Epoch::from_gregorian_hms(
             i32a(a[0]), u8a(a[1]), u8a(a[2]), u8a(a[3]), u8a(a[4]), u8a(a[5]), s2ts(a[6]),
         )),
-        "tai_hms" => oke(Epoch::from_gregorian_tai_hms(i32a(a[0]), u8a(a[1]), u8a(a[2]), u8a(a[3]), u8a(a[4]), u8a(a[5]))),
-        "utc_hms" => oke(Epoch::from_gregorian_utc_hms(i32a(a[0]), u8a(a[1]), u8a(a[2]), u8a(a[3]), u8a(a[4]), u8a(a[5]))),
+        "greg_tai_hms" => oke(Epoch::from_gregorian_tai_hms(i32a(a[0]), u8a(a[1]), u8a(a[2]), u8a(a[3]), u8a(a[4]), u8a(a[5]))),
+        "greg_utc_hms" => oke(Epoch::from_gregorian_utc_hms(i32a(a[0]), u8a(a[1]), u8a(a[2]), u8a(a[3]), u8a(a[4]), u8a(a[5]))),
         "greg_month" => {
             // all 31 day numbers of one month at one time of day: epoch, or `x` for an error
             let (y, m) = (i32a(a[0]), u8a(a[1]));
@@ -560,19 +560,19 @@ pub fn exec(op: &str, a: &[&str]) -> Option<String> {
             assert!(e.time_scale == TimeScale::UTC);
             Some(fields(e.to_gregorian_utc()))
         }
-        "rt_tai" => {
+        "greg_rt_tai" => {
             let e = s2e(a[0]);
             assert!(e.time_scale == TimeScale::TAI);
             let (y, m, d, h, mi, s, ns) = e.to_gregorian_tai();
             Some(res_e(Epoch::maybe_from_gregorian_tai(y, m, d, h, mi, s, ns)))
         }
-        "rt_utc" => {
+        "greg_rt_utc" => {
             let e = s2e(a[0]);
             assert!(e.time_scale == TimeScale::UTC);
             let (y, m, d, h, mi, s, ns) = e.to_gregorian_utc();
             Some(res_e(Epoch::maybe_from_gregorian_utc(y, m, d, h, mi, s, ns)))
         }
-        "rt" => {
+        "greg_rt" => {
             // any scale: the text form read back field by field (fixed columns from the right; the
             // parser of C10 is not involved), then rebuilt in the same scale
             let e = s2e(a[0]);
@@ -588,7 +588,7 @@ pub fn exec(op: &str, a: &[&str]) -> Option<String> {
             let ns: u32 = if time.len() > 8 { time[9..].parse().unwrap() } else { 0 };
             Some(res_e(Epoch::maybe_from_gregorian(y, m, d, h, mi, sec, ns, e.time_scale)))
         }
-        "debug" => {
+        "fmt_debug" => {
             let e = s2e(a[0]);
             assert!(e.time_scale == TimeScale::UTC);
             Some(format!("ok {}", str2hex(&format!("{:?}", e))))
@@ -616,8 +616,8 @@ pub fn exec(op: &str, a: &[&str]) -> Option<String> {
         "year" => Some(format!("ok {}", s2e(a[0]).year())),
         "month_name" => Some(format!("ok {}", str2hex(&format!("{:?}", s2e(a[0]).month_name())))),
         "dur_in_year" => Some(format!("ok {}", d2s(s2e(a[0]).duration_in_year()))),
-        "day_of_year" => Some(format!("ok {}", f2s(s2e(a[0]).day_of_year()))),
-        "year_doy" => {
+        "doy" => Some(format!("ok {}", f2s(s2e(a[0]).day_of_year()))),
+        "ydoy" => {
             let (y, d) = s2e(a[0]).year_days_of_year();
             Some(format!("ok {} {}", y, f2s(d)))
         }
